@@ -156,6 +156,7 @@ def check_cases(seeds):
             continue
         sample = dict(case=c, game=desc)
         t1 = time.time()
+        declared = {k: list(v) for k, v in aut.varlist.items()}     # the caller's variable lists before any enumeration
         try:
             with contextlib.redirect_stdout(io.StringIO()):
                 g = enum.action_to_steps(aut, env='env', sys='impl', qinit=c['qinit'])
@@ -168,6 +169,8 @@ def check_cases(seeds):
                                 cex=dict(seed=seed, kind='raise')))
             continue
         problems, q, nst, ntr = validate_graph(g, aut, c, z3)
+        if not problems:
+            problems += second_enumeration(aut, c, declared)
         dt = time.time() - t1
         sample.update(nodes=nst, edges=ntr, initial=len(g.initial_nodes))
         if not problems:
@@ -182,6 +185,40 @@ def check_cases(seeds):
                                 nontrivial=True, functions=FUNCS, signature='enumerated-graph:' + problems[0].split(':')[0],
                                 detail=f'{desc}: {problems[0]}; replay: {why}', cex=cex))
     return out
+
+
+def second_enumeration(aut, c, declared):
+    """History: the same Automaton enumerated again under another component name (`sys` after `impl`). The graph
+    must be labelled with the variables of `env` and `sys` as the caller declared them, every initial node must
+    satisfy the initial condition of `sys`, and every edge its action (evaluated with Context.let)."""
+    import omega.games.enumeration as enum
+    if 'sys' not in aut.action or 'sys' not in aut.init:
+        return []
+    want_env, want_sys = list(declared['env']), list(declared['sys'])
+    try:
+        with contextlib.redirect_stdout(io.StringIO()):
+            g2 = enum.action_to_steps(aut, env='env', sys='sys', qinit=c['qinit'])
+    except Exception as e:  # noqa: the nondeterministic component may admit no initial node for this qinit
+        if isinstance(e, AssertionError):
+            return []
+        return [f'second enumeration (component sys on the same automaton) raised {type(e).__name__}: {str(e)[:80]}']
+    keys = sorted(want_env + want_sys)
+    for n, d in g2.nodes(data=True):
+        if sorted(d) != keys:
+            return [f'second enumeration: node {dict(d)} is not a valuation of the variables {keys} the caller declared for env and sys '
+                    f'(after the first enumeration the automaton lists env={aut.varlist["env"]}, sys={aut.varlist["sys"]})']
+
+    def tt(u, cur, nxt=None):
+        dd_ = dict(cur)
+        if nxt is not None:
+            dd_.update({k + "'": v for k, v in nxt.items()})
+        sup = aut.support(u)
+        dd_ = {k: v for k, v in dd_.items() if k in sup}
+        return (aut.let(dd_, u) if dd_ else u) == aut.true
+    for u_, v_ in g2.edges():
+        if not tt(aut.action['sys'], g2.nodes[u_], g2.nodes[v_]):
+            return [f'second enumeration: edge {dict(g2.nodes[u_])} -> {dict(g2.nodes[v_])} is not a step of the action of sys']
+    return []
 
 
 def validate_graph(g, aut, c, z3):
@@ -564,6 +601,7 @@ def replay(payload):
     aut, desc = build_case(c)
     if aut is None:
         return False, 'case not constructible'
+    declared = {k: list(v) for k, v in aut.varlist.items()}
     try:
         with contextlib.redirect_stdout(io.StringIO()):
             g = enum.action_to_steps(aut, env='env', sys='impl', qinit=c['qinit'])
@@ -632,6 +670,9 @@ def replay(payload):
                 admitted = tt(aut.init['env'], dict(x, **y0)) == aut.true
             if admitted != (tuple(x[k] for k in env) in xs_init):
                 return True, f'environment value {x}: admitted by EnvInit = {admitted}, has an initial node = {not admitted}'
+    second = second_enumeration(aut, c, declared)
+    if second:
+        return True, second[0]
     return False, 'edges, input-completeness and initial nodes conform on this graph (liveness: re-run the check)'
 
 
